@@ -809,6 +809,11 @@ class BaseBackend(CodeGen):
         from scipy.integrate import solve_ivp
         kwargs['t_eval'] = times
 
+        # The generated vector field writes into, and returns, the same output buffer on every call. scipy's solvers keep
+        # references to returned derivatives (e.g. DOP853 for its dense output), so hand them a copy.
+        def rhs(t, y_, *args_):
+            return np.array(func(t, y_, *args_))
+
         # call scipy solver
-        results = solve_ivp(fun=func, t_span=(t0, T), y0=y, first_step=dt, args=args, **kwargs)
+        results = solve_ivp(fun=rhs, t_span=(t0, T), y0=y, first_step=dt, args=args, **kwargs)
         return results['y'].T
